@@ -122,6 +122,7 @@ Proof.
   - inversion H; subst. right. exists t, (Wake op c), r. repeat split; auto; intros; discriminate.
   - destruct (flag_set op s x); [|destruct (chan_closed op s c)]; inversion H; subst; try (left; reflexivity);
       right; exists t, (SendIfOpen op x c), r; repeat split; auto; intros; discriminate.
+  - inversion H; subst. right. exists t, (Recv op c), r. repeat split; auto; intros; discriminate.
 Qed.
 
 (* origin of every thread of the successor state *)
